@@ -161,6 +161,9 @@ def signature(f, pshift=0, prog=None, subst=None, depth=0, forward=True):
                 tok = ('br', norm(tt.term(i.ops[0])))
                 if "'of_verbosity'" in repr(tok):
                     continue        # trace-level test (debug configuration); trace output is not a semantic event
+                if _flag_only(tok[1]):
+                    continue        # a test of a pure control flag (sentinel index, status of an expanded helper): how the
+                    #                 outcome of an earlier test is carried to this point is encoding, not behaviour
             elif i.op == 'ret':
                 tok = ('ret', norm(tt.term(i.ops[0])) if i.ops else None)
             if tok is not None:
@@ -170,6 +173,19 @@ def signature(f, pshift=0, prog=None, subst=None, depth=0, forward=True):
 
 
 SIBLING_NAMES = set(m[0] for g in GROUPS for m in g[1])
+
+
+def _flag_only(t):
+    """the term is built from constants only (including phis all of whose leaves are constants)"""
+    if not isinstance(t, tuple):
+        return True
+    if t[0] == 'const':
+        return True
+    if t[0] == 'cmp':
+        return _flag_only(t[2]) and _flag_only(t[3])
+    if t[0] == 'phi':
+        return all(x.startswith("('const'") for x in t[1]) if len(t) > 1 and isinstance(t[1], tuple) else False
+    return False
 
 
 def r_siblings(ctx, prog, scopes):
